@@ -108,6 +108,7 @@ type Stats struct {
 	UnsuppMsgs   map[string]int64
 	Funcs        map[string]bool // functions executed with a symbolic operand
 	Samples      []string
+	Observed     []string
 }
 
 func newStats() *Stats {
